@@ -15,7 +15,7 @@ NA = {
 # id: (engine, level, technique, text, note, design_ref)
 CHECKS = {
  "C01": ("seq", "exploration", "deterministic simulation: seeded mutation histories + probe requests refined against an independent reference matcher through every entry point; shrinking + exact replay",
-         "The tree is whatever a seeded history of inserts, updates, deletes, truncations and aborted transactions left behind, read through recycled request contexts; every probe is routed through Lookup, Reverse, Iter.Reverse and ServeHTTP (router, read-only and open write transactions) and compared with a structurally different reference matcher plus the substitution round-trip. Sampling over history x request; the exhaustive small-alphabet part of the quantifier is model checking and is not done.",
+         "The tree is whatever a seeded history of inserts, updates, deletes, truncations and aborted transactions left behind, read through recycled request contexts; every probe is routed through Lookup, Reverse, Iter.Reverse and ServeHTTP (router, read-only and open write transactions) and compared with a structurally different reference matcher plus the substitution round-trip. Sampling over history x request; the exhaustive small-alphabet part of the quantifier is model checking and is not done. One deviation of the pinned tree is a listed known finding (known_findings.json: C01/star-segment-prefers-catch-all, DESIGN 5.4): the check prints a KNOWN-FINDING line for it and exits 0; any other deviation is a violation.",
          "trusts the reference matcher in harness/model (token trie, depth-first static > param > catch-all) and the stated tolerance for captures starting with '/'", "6 C01"),
  "C02": ("seq", "exploration", "deterministic simulation: seeded operation/transaction-fault histories refined step by step against a sequential map model, shrinking + exact replay",
          "Seeded histories of every mutating entry point (direct and in transactions ended by commit, abort, returned error and injected panic) are executed on the real router; every return value, error class, conflict list and a full observation sweep are compared with a sequential map after each step. Sampling, not proof: right level because the property quantifies over unbounded histories.",
@@ -42,7 +42,7 @@ CHECKS = {
          "Whole-host matching is universal over Host strings; the check samples near-miss variants around every registered hostname on trees shaped by histories and compares all entry points with the reference.",
          "hosts lower case; slash-adjusted hostname candidates are judged by C08", "6 C09"),
  "C11": ("seq", "exploration", "deterministic simulation: seeded histories x the four option combinations x methods incl. OPTIONS/'*'/methods without routes against the reference dispatcher (handler kind, Allow as a set, scrubbed context, scope)",
-         "Which special handler answers an unserved request, the exact Allow set and the context it sees are compared with the reference over arbitrary tables; a per-method answer that deviates in one of the (now repaired) C08 detection shapes is reported under its own class.",
+         "Which special handler answers an unserved request, the exact Allow set and the context it sees are compared with the reference over arbitrary tables; a per-method answer that deviates in one of the (now repaired) C08 detection shapes is reported under its own class. One deviation of the pinned tree is a listed known finding (C11/allow-lists-connect-through-ignored-slash, DESIGN 5.3): KNOWN-FINDING line, exit 0.",
          "Allow composition is judged on top of per-method routing answers checked against the reference", "6 C11"),
  "C12": ("req+conc", "exploration", "deterministic simulation: token-tagged requests of every shape from 1-3 client tasks plus a tree-replacing writer under the seeded scheduler; every Context getter compared with the current request before and after each yield; clones re-inspected after later requests",
          "Leaks depend on what the previous user of a pooled context left behind and on which request ran in between; the scheduler decides both, the pool is made deterministic (one P, GC off during a run), and every observable field carries a per-request token so that any foreign datum is attributable.",
@@ -54,8 +54,8 @@ CHECKS = {
          "For each generated history of ResponseWriter/Context-helper calls every byte position at which the connection or the ReadFrom source fails is executed; Status/Size/Written after every call are compared with what the connection really received, and must not depend on the fast path.",
          "histories <= 7 calls and <= 14 body bytes; 'forwarded' is judged from the simulated connection's own log", "6 C14"),
  "C15": ("req+conc", "fault_enumeration", "deterministic simulation with enumerated fault points: every panic value x response progress x panic site, and a panic after every prefix of an Updates/View program inside a handler; follow-up request, route sweep and a scheduled write (deadlock detector) after each",
-         "All combinations are executed for each generated configuration (routes, header capitalisation, transaction program); containment, the 500/untouched/nothing rule, the diagnostic record (route, params, request line, no secret value) and usability afterwards (routes unchanged, request served, writer lock released) are checked.",
-         "panic values from a fixed list of 10; secrets are unique tokens searched as substrings of the whole record", "6 C15"),
+         "All combinations are executed for each generated configuration (routes, header capitalisation, transaction program); containment, the 500/untouched/nothing rule, the diagnostic record (route, params, request line, no secret value) and usability afterwards (routes unchanged, request served, writer lock released) are checked. One deviation of the pinned tree is a listed known finding (C15/fastpath-copy-panic-loses-accounting, DESIGN 5.4b): KNOWN-FINDING line, exit 0.",
+         "panic values from a fixed list of 24 (typed nil pointers, values whose methods panic and a runtime panic from a generated wrapper included); secrets are unique tokens searched as substrings of the whole record", "6 C15"),
  "C20": ("req", "exploration", "deterministic simulation: scripted handler behaviours x resolver configurations x handler kinds through the real Logger middleware with a capturing sink, differential against a twin router without the logger",
          "One record per returning handler, after it, with the recorder's status, the request's method/host/path, the three-way client-IP message, the level per status class and the location attribute; the response must be byte-identical to the twin router's; a panic passes through as the identical value without a record.",
          "latency attribute ignored (real clock, unobserved)", "6 C20"),
